@@ -7,6 +7,7 @@ import CocoVerif.Model.Img
 import CocoVerif.Model.Compile
 import CocoVerif.Model.ProcBank
 import CocoVerif.Props.C14
+import CocoVerif.Gen.EcbHelpers
 
 open CocoVerif.Model
 
@@ -134,11 +135,55 @@ def handleProcBank (args : List String) : String :=
       | _, _, _ => "bad-op"
   | _ => "bad-op"
 
+/-- integer value of a numeric spelling (sign, digits; anything after the digits is ignored) -/
+def valOf (cs : List Char) : Int :=
+  let cs := cs.dropWhile (· == ' ')
+  let (neg, ds) := match cs with
+    | '-' :: r => (true, r)
+    | '+' :: r => (false, r)
+    | r => (false, r)
+  let n : Nat := (ds.takeWhile Char.isDigit).foldl (fun acc c => acc * 10 + (c.toNat - 48)) 0
+  if neg then -(n : Int) else (n : Int)
+
+def showLibRes (r : Option B09Lib.Res) (outIdx : Nat) : String :=
+  match r with
+  | none => "fuel"
+  | some (.err c) => s!"err {c}"
+  | some .stuck => "stuck"
+  | some (.ok env) => match env[outIdx]? with
+      | some (.n x) => s!"ok n {x}"
+      | some (.s cs) => "ok s " ++ hexStr (String.ofList cs)
+      | _ => "stuck"
+
+/-- initial environment: the given parameter values, then a default for every `dim` -/
+def libEnv (p : B09Lib.Proc) (params : List B09Lib.V) : List B09Lib.V :=
+  params ++ (p.kinds.drop params.length).map (fun k => if k == "string" then B09Lib.V.s [] else B09Lib.V.n 0)
+
+/-- run one of the helper procedures *as translated from /repo just now* -/
+def handleLib (args : List String) : String :=
+  match args with
+  | ["instr", st, s, p] => match st.toInt?, unhexStr s, unhexStr p with
+      | some n, some s, some p =>
+          showLibRes (B09Lib.exec valOf 100000 CocoVerif.Gen.EcbHelpers.ecb_instr.body
+            (libEnv CocoVerif.Gen.EcbHelpers.ecb_instr [.n n, .s s.toList, .s p.toList, .n 77])) 3
+      | _, _, _ => "bad-op"
+  | ["string", c, s] => match c.toInt?, unhexStr s with
+      | some n, some s =>
+          showLibRes (B09Lib.exec valOf 100000 CocoVerif.Gen.EcbHelpers.ecb_string.body
+            (libEnv CocoVerif.Gen.EcbHelpers.ecb_string [.n n, .s s.toList, .s "junk".toList])) 2
+      | _, _ => "bad-op"
+  | ["readfilter", s] => match unhexStr s with
+      | some s => showLibRes (B09Lib.exec valOf 1000 CocoVerif.Gen.EcbHelpers.ecb_read_filter.body
+          (libEnv CocoVerif.Gen.EcbHelpers.ecb_read_filter [.s s.toList, .n 77])) 1
+      | _ => "bad-op"
+  | _ => "bad-op"
+
 def handle (lib : String) (line : String) : String :=
   match (line.trimAscii.toString.splitOn " ") with
   | "img" :: args => handleImg args
   | "convast" :: args => handleConvAst lib args
   | "procbank" :: args => handleProcBank args
+  | "lib" :: args => handleLib args
   | ["c14table"] =>
       "ok " ++ ";".intercalate (CocoVerif.Props.C14.emittedCalls.map (fun c =>
         c.2.1 ++ "|" ++ ",".intercalate c.2.2.1 ++ "|" ++ (if c.2.2.2 then "1" else "0")))
